@@ -17,7 +17,7 @@ func init() {
 		Level: "other",
 		Explanation: "Decided (structural necessary conditions of 'exclusion only deletes repeated marginal text'): (R11.1) FilterFragments is a pure subsequence filter: it returns its input or appends unmodified elements of it in one forward pass; (R11.2) a fragment is deleted only on paths that crossed the page-membership test, the margin-band test and (character-level or text match); (R11.3) in the root package every header/footer detection runs on the result of collectAllPages and every filtering call is applied to that detection's result under the exclude options; (R11.4) detection candidates are taken only from the margin band and keep their trimmed text; (R11.5) the occurrence threshold counts distinct pages; (R11.6) the filter compares trimmed texts on both sides, like detection does. " +
 			"Not decided: which text actually repeats in a given document, thresholds and tolerances, DOCX/ODT/PPTX part-based exclusion.",
-		Rules: []func(*eng.Ctx){rulePureFilter, ruleDeleteGuard, ruleDetectAllPages, ruleCandidates, ruleDistinctPages, ruleTextsMatch, ruleMatchIsEquality, roleRule("R11.R", "layout", "docx", "odt", "pptx")},
+		Rules: []func(*eng.Ctx){rulePureFilter, ruleDeleteGuard, ruleDetectAllPages, ruleCandidates, ruleDistinctPages, ruleTextsMatch, ruleMatchIsEquality, roleRule("R11.R", "layout", "docx", "odt", "pptx"), ruleFilterPageIndex},
 	})
 }
 
@@ -215,14 +215,49 @@ func ruleDeleteGuard(c *eng.Ctx) {
 		key := fmt.Sprintf("layout.(*HeaderFooterResult).isInHeaderFooter#return-true-%d", n)
 		b := r.Block()
 		p1 := eng.GuardedBy(fn, b, callFact("layout.containsPage"))
-		p2 := eng.GuardedBy(fn, b, band)
+		// which list this decision belongs to: the region whose page membership guards it
+		side := ""
+		for _, kind := range []string{"Headers", "Footers"} {
+			k := kind
+			if eng.GuardedBy(fn, b, func(f eng.Fact) bool {
+				call, ok := f.Cond.(*ssa.Call)
+				if !ok || !f.Pos || eng.CalleeName(call) != "layout.containsPage" {
+					return false
+				}
+				for v := range eng.Slice(call.Call.Args[0], nil) {
+					if fr, ok := eng.AsField(v); ok && fr.Field == k {
+						return true
+					}
+				}
+				return false
+			}) {
+				side = strings.ToLower(strings.TrimSuffix(k, "s"))
+			}
+		}
+		// the band test must be the one of that side: a header is deleted only inside the header band
+		bandOfSide := func(f eng.Fact) bool {
+			if !band(f) {
+				return false
+			}
+			if side == "" {
+				return true
+			}
+			_, x, y, _ := f.Cmp()
+			for _, v := range []ssa.Value{x, y} {
+				if p, ok := v.(*ssa.Parameter); ok && strings.Contains(strings.ToLower(p.Name()), side) {
+					return true
+				}
+			}
+			return false
+		}
+		p2 := eng.GuardedBy(fn, b, bandOfSide)
 		p3 := eng.GuardedBy(fn, b, matchOrChar)
 		var miss []string
 		if !p1 {
 			miss = append(miss, "page membership of the region")
 		}
 		if !p2 {
-			miss = append(miss, "margin-band distance test")
+			miss = append(miss, "margin-band distance test of its own side (header band for headers, footer band for footers)")
 		}
 		if !p3 {
 			miss = append(miss, "text match (or character-level page)")
